@@ -115,6 +115,12 @@ func runGenomeSpaces(c *Ctx, prop string, oracle func(t *gsTransition)) {
 		}
 		gs := newGenomeSpace(c, cfg)
 		gs.Search()
+		// operator sequences on one live object (what an operator leaves behind inside the object)
+		L := 3
+		if !c.Quick() && i != 8 {
+			L = 4
+		}
+		gs.LiveChains(L, 1, []string{"M", "A"})
 	})
 }
 
